@@ -417,3 +417,7 @@ pub fn format_state(w: &mut impl std::fmt::Write, state: &ObservableState) -> st
     w.write_str("# EOF\n")?;
     Ok(())
 }
+
+#[cfg(feature = "pendulum_project_ntpd_rs_verif")]
+#[path = "/verif/hooks/ntpd/metrics_mod.rs"]
+pub mod vh_metrics_mod;
